@@ -48,13 +48,14 @@ Record tub := mktub {
   t_gen : nat;                 (* next connector generation *)
   t_waiters : nat;             (* len(waitingForBrokers[peer]) *)
   t_fired : nat;               (* lookups answered so far (this incarnation) *)
-  t_issued : nat               (* lookups made so far (this incarnation) *)
+  t_issued : nat;              (* lookups made so far (this incarnation) *)
+  t_retry : bool               (* the application's next errback synchronously calls getReference again (instant retry) *)
 }.
 
 Record state := mkstate { tm : tub; ts : tub; conns : nat -> conn; nconn : nat }.
 
 Definition dead_conn : conn := mkconn TM 0 ELost ELost [] [] false.
-Definition new_tub (inc : Z) (gen : nat) : tub := mktub inc None None 0 0 None None gen 0 0 0.
+Definition new_tub (inc : Z) (gen : nat) : tub := mktub inc None None 0 0 None None gen 0 0 0 false.
 Definition init : state := mkstate (new_tub 1 0) (new_tub 1 0) (fun _ => dead_conn) 0.
 
 Definition tubof (x : tubname) (s : state) : tub := match x with TM => tm s | TS => ts s end.
@@ -64,13 +65,13 @@ Definition set_conns (f : nat -> conn) (s : state) : state := mkstate (tm s) (ts
 Definition upd (f : nat -> conn) (c : nat) (k : conn) : nat -> conn := fun i => if Nat.eqb i c then k else f i.
 
 Definition set_broker (b : option nat) (t : tub) : tub :=
-  mktub (t_inc t) b (t_bir t) (t_bseq t) (t_master t) (t_slave t) (t_connector t) (t_gen t) (t_waiters t) (t_fired t) (t_issued t).
+  mktub (t_inc t) b (t_bir t) (t_bseq t) (t_master t) (t_slave t) (t_connector t) (t_gen t) (t_waiters t) (t_fired t) (t_issued t) (t_retry t).
 Definition set_connector (c : option nat) (t : tub) : tub :=
-  mktub (t_inc t) (t_broker t) (t_bir t) (t_bseq t) (t_master t) (t_slave t) c (t_gen t) (t_waiters t) (t_fired t) (t_issued t).
+  mktub (t_inc t) (t_broker t) (t_bir t) (t_bseq t) (t_master t) (t_slave t) c (t_gen t) (t_waiters t) (t_fired t) (t_issued t) (t_retry t).
 (* every waiting Deferred is fired (callback or errback) *)
 Definition fire (t : tub) : tub :=
   mktub (t_inc t) (t_broker t) (t_bir t) (t_bseq t) (t_master t) (t_slave t) (t_connector t) (t_gen t) 0
-        (t_fired t + t_waiters t) (t_issued t).
+        (t_fired t + t_waiters t) (t_issued t) (t_retry t).
 
 (* ---- one end *)
 Definition cend (x : tubname) (k : conn) : est := match x with TM => c_m k | TS => c_s k end.
@@ -112,11 +113,37 @@ Definition is_pending (x : tubname) (g : nat) (k : conn) : bool :=
 Definition any_pending (x : tubname) (g : nat) (s : state) : bool :=
   existsb (fun i => is_pending x g (conns s i)) (seq 0 (nconn s)).
 
+(* Tub.getBrokerForTubRef, on the Tub's own state *)
+Definition getref_tub (t : tub) : tub :=
+  match t_broker t with
+  | Some _ => mktub (t_inc t) (t_broker t) (t_bir t) (t_bseq t) (t_master t) (t_slave t) (t_connector t)
+                    (t_gen t) (t_waiters t) (S (t_fired t)) (S (t_issued t)) (t_retry t)
+  | None =>
+    match t_connector t with
+    | Some _ => mktub (t_inc t) None (t_bir t) (t_bseq t) (t_master t) (t_slave t) (t_connector t)
+                      (t_gen t) (S (t_waiters t)) (t_fired t) (S (t_issued t)) (t_retry t)
+    | None => mktub (t_inc t) None (t_bir t) (t_bseq t) (t_master t) (t_slave t) (Some (t_gen t))
+                    (S (t_gen t)) (S (t_waiters t)) (t_fired t) (S (t_issued t)) (t_retry t)
+    end
+  end.
+
+(* every waiter is errbacked; application errbacks run synchronously: if armed, the first one calls
+   getReference for the same Tub again, from inside the errback *)
+Definition errback_all (t : tub) : tub :=
+  let t' := fire t in
+  if t_retry t && negb (Nat.eqb (t_waiters t) 0)
+  then getref_tub (mktub (t_inc t') (t_broker t') (t_bir t') (t_bseq t') (t_master t') (t_slave t') (t_connector t')
+                         (t_gen t') (t_waiters t') (t_fired t') (t_issued t') false)
+  else t'.
+
 (* TubConnector.failed -> Tub.connectionFailed: forget the connector; unless an inbound connection made it,
-   errback everyone waiting *)
+   errback everyone waiting.  The order of the two effects is read from the source. *)
 Definition connector_gone (t : tub) : tub :=
-  let t1 := set_connector None t in
-  match t_broker t1 with Some _ => t1 | None => fire t1 end.
+  if connection_failed_forgets_first then
+    let t1 := set_connector None t in
+    match t_broker t1 with Some _ => t1 | None => errback_all t1 end
+  else
+    set_connector None (match t_broker t with Some _ => t | None => errback_all t end).
 
 (* connectorNegotiationFailed (after the negotiation was popped): checkForFailure *)
 Definition connector_failed (x : tubname) (g : nat) (s : state) : state :=
@@ -127,19 +154,11 @@ Definition connector_failed (x : tubname) (g : nat) (s : state) : state :=
   end.
 
 (* Tub.getBrokerForTubRef at x *)
-Definition do_getref (x : tubname) (s : state) : state :=
-  let t := tubof x s in
-  match t_broker t with
-  | Some _ => set_tub x (mktub (t_inc t) (t_broker t) (t_bir t) (t_bseq t) (t_master t) (t_slave t) (t_connector t)
-                               (t_gen t) (t_waiters t) (S (t_fired t)) (S (t_issued t))) s
-  | None =>
-    match t_connector t with
-    | Some _ => set_tub x (mktub (t_inc t) None (t_bir t) (t_bseq t) (t_master t) (t_slave t) (t_connector t)
-                                 (t_gen t) (S (t_waiters t)) (t_fired t) (S (t_issued t))) s
-    | None => set_tub x (mktub (t_inc t) None (t_bir t) (t_bseq t) (t_master t) (t_slave t) (Some (t_gen t))
-                               (S (t_gen t)) (S (t_waiters t)) (t_fired t) (S (t_issued t))) s
-    end
-  end.
+Definition do_getref (x : tubname) (s : state) : state := set_tub x (getref_tub (tubof x s)) s.
+
+Definition set_retry (b : bool) (t : tub) : tub :=
+  mktub (t_inc t) (t_broker t) (t_bir t) (t_bseq t) (t_master t) (t_slave t) (t_connector t) (t_gen t) (t_waiters t)
+        (t_fired t) (t_issued t) b.
 
 (* one location hint of x's live connector: TCP connect + GET + 101; both hellos are then in flight.
    Only the client's hello carries last-connection (initClient), default ("none", 0). *)
@@ -194,7 +213,7 @@ Definition master_accept (c : nat) (inc : Z) (s : state) : state :=
   let k := conns s c in
   let k1 := set_end TM EBrk (enq TM (Decision (t_inc t) seq) k) in
   let t1 := mktub (t_inc t) (t_broker t) (Some inc) seq seq (t_slave t) (t_connector t) (t_gen t) (t_waiters t)
-                  (t_fired t) (t_issued t) in
+                  (t_fired t) (t_issued t) (t_retry t) in
   attach TM c (mkstate t1 (ts s) (upd (conns s) c k1) (nconn s)).
 
 (* the master refuses: error block, hang up *)
@@ -249,8 +268,9 @@ Definition deliver_s (c : nat) (s : state) : state :=
       | EDec =>
         let s1 := drop_existing TS s in
         let t := ts s1 in
-        let t1 := mktub (t_inc t) (t_broker t) (t_bir t) (t_bseq t) (t_master t) (Some (inc, seq)) (t_connector t)
-                        (t_gen t) (t_waiters t) (t_fired t) (t_issued t) in
+        let rec_ := if slave_table_recorded_always || tub_eqb (c_client k) TS then Some (inc, seq) else t_slave t in
+        let t1 := mktub (t_inc t) (t_broker t) (t_bir t) (t_bseq t) (t_master t) rec_ (t_connector t)
+                        (t_gen t) (t_waiters t) (t_fired t) (t_issued t) (t_retry t) in
         attach TS c (mkstate (tm s1) t1 (upd (conns s1) c (set_end TS EBrk (pop_ms (conns s1 c)))) (nconn s1))
       | ENeg => set_conns (upd (conns s) c (lose TS (pop_ms k))) s
       | _ => s0
@@ -293,7 +313,7 @@ Definition do_timeout (x : tubname) (s : state) : state :=
 Inductive op :=
 | GetRef (x : tubname) | DialHint (x : tubname)
 | Deliver (c : nat) (to : tubname) | CloseSeen (c : nat) (x : tubname) | Cut (c : nat)
-| Restart (x : tubname) | Timeout (x : tubname).
+| Restart (x : tubname) | Timeout (x : tubname) | ArmRetry (x : tubname).
 
 Definition step (s : state) (o : op) : state :=
   match o with
@@ -305,6 +325,7 @@ Definition step (s : state) (o : op) : state :=
   | Cut c => if Nat.ltb c (nconn s) then do_cut c s else s
   | Restart x => do_restart x s
   | Timeout x => do_timeout x s
+  | ArmRetry x => set_tub x (set_retry true (tubof x s)) s
   end.
 
 Definition run (ops : list op) : state := fold_left step ops init.
@@ -325,7 +346,8 @@ Definition optnat_code (o : option nat) : Z := match o with Some n => Z.of_nat n
 Definition tub_obs (t : tub) : list Z :=
   [optnat_code (t_broker t); t_master t;
    match t_slave t with Some (i, _) => i | None => (-1)%Z end; match t_slave t with Some (_, q) => q | None => (-1)%Z end;
-   (match t_connector t with Some _ => 1 | None => 0 end)%Z; Z.of_nat (t_waiters t); Z.of_nat (t_fired t)].
+   (match t_connector t with Some _ => 1 | None => 0 end)%Z; Z.of_nat (t_waiters t); Z.of_nat (t_fired t);
+   (if t_retry t then 1 else 0)%Z].
 Definition conn_obs (k : conn) : list Z :=
   [(match c_client k with TM => 0 | TS => 1 end)%Z; est_code (c_m k); est_code (c_s k); (if c_cut k then 1 else 0)%Z]
   ++ map msg_code (c_qms k) ++ [9%Z] ++ map msg_code (c_qsm k).
